@@ -620,7 +620,8 @@ class Interp:
                 return self.relocate(st, v, cname)
             raise Inconclusive(f"promoted constant {cname} not loaded")
         if c.startswith("'"):
-            ch = eval(c)
+            mu = re.fullmatch(r"'\\u\{([0-9a-fA-F]+)\}'", c)      # Rust spelling of a code point
+            ch = chr(int(mu.group(1), 16)) if mu else eval(c)
             return SInt(z3.BitVecVal(ord(ch), 32), 32, False)
         # unit-like enum variant constant
         clean = re.sub(r"<[^<>]*>", "", self.strip_all_generics(c))
@@ -942,6 +943,8 @@ class Interp:
     def eval_pure(self, fname, args):
         """run a straight-line in-crate function to its single return value (e.g. Default::default)"""
         sub = Interp(self.funcs, self.stubs, self.hints, self.unwind)
+        sub.stub_patterns = getattr(self, "stub_patterns", ())
+        sub.lazy = getattr(self, "lazy", True)
         sub.keep_last_frame = True
         exits = sub.run(fname, args)
         rets = [e for e in exits if e.kind == "return"]
